@@ -310,17 +310,18 @@ func init() {
 	// a client that is written to all the time is "seen": its queue and contents stay, however long the run
 	// of writes lasts (the real sweeper runs on virtual time)
 	harnesses = append(harnesses, &vs.Harness{
-		Name:    "c17b-written-to",
-		Horizon: 24 * time.Hour,
+		Name:     "c17b-written-to",
+		Horizon:  24 * time.Hour,
+		MaxSteps: 400000,
 		Body: func(x *vs.X) {
 			const T = time.Minute
-			gap := []time.Duration{T / 4, T / 2, T - time.Second, 50 * time.Millisecond}[vs.Choose("gap", 4)]
+			gap := []time.Duration{T / 4, T / 2, T - time.Second, 500 * time.Millisecond}[vs.Choose("gap", 4)]
 			other := vs.Choose("other-client-in-between", 2) == 1
 			c := NewQueuePacketConn(fakeAddr("local"), T)
 			a, b := fakeAddr("a"), fakeAddr("b")
 			n := 0
 			var problem string
-			for vs.Elapsed() < 4*T && n < 2000 {
+			for vs.Elapsed() < 4*T && n < 600 {
 				p, val, _ := tryCall(func() {
 					if _, err := c.WriteTo([]byte(fmt.Sprintf("p%d", n)), a); err != nil && problem == "" {
 						problem = fmt.Sprintf("WriteTo #%d at %v: %v", n, vs.Elapsed(), err)
